@@ -26,6 +26,16 @@ claimed = {
    note="Assumed: go/ssa, solvers, govc; message GetOpCode/IsResponse are constant per implementer (checked syntactically, modelled as a function of the dynamic type); 'still encodes and round-trips' is the encoder's precondition (C01), not re-proved; SetTracingId/RequestTracingId specified for responses/requests as documented.",
    technique="contract-based deductive verification: representation invariant + frame conditions over a component heap model, SMT arrays for maps",
    design="DESIGN.md §4 C20"),
+ "C06": dict(
+   text="Proof: ChecksumKoopman equals the reference CRC-24 routine (init 0x875060, poly 0x1974F0B, masked bytes) for all 2^64 inputs at both header lengths (loops unrolled completely, unwinding obligations); the 3/5-byte little-endian header with 17-bit lengths and the flag bit, followed by the 3 CRC-24 bytes, is emitted exactly (write side) and parsed exactly (read side); encode-then-decode of a header returns the same lengths and flag for every length 0..131071 and both flag values, with and without compressor, including the 'uncompressed length 0' fallback; payloads above 131071 are refused with nothing written; the uncompressed segment is header + payload bytes as is (quantified over every index) + CRC-32 little-endian; the decoder consumes exactly length+4 bytes.",
+   note="Assumed: hash/crc32.Update is the CRC-32 state function; crc24Ref is a literal transcription of Cassandra's Crc.crc24; go/ssa, solvers, govc; io.Writer/io.Reader stream contracts. Not covered: encodeSegmentCompressed and the LZ4 algorithm (no bound on compressor output under proof), end-to-end DecodeSegment(EncodeSegment(s)) payload equality (proved piecewise: header round trip, payload bytes on the write side, CRC over the transmitted bytes on the read side).",
+   technique="contract-based deductive verification: bit-vector contracts, complete loop unrolling, lemma functions over contracts, quantified append-only stream contracts",
+   design="DESIGN.md §4 C06"),
+ "C07": dict(
+   text="Proof of the decoder's obligations: decodeSegmentHeader returns success only if all 24 bits of the received CRC equal ChecksumKoopman of the received header bytes (and that function equals the reference CRC-24 for all inputs), every header field is a function of exactly those bytes, and a mismatching CRC is always rejected when 6 bytes are available; decodeSegmentPayload returns success only if all 32 bits of the received trailer equal the seeded CRC-32 of the payload bytes as transmitted, before any decompression. A wrong constant, shift, mask or a comparison ignoring part of a checksum fails a named obligation.",
+   note="NOT proved (stated in evidence as a bounded/unproved part): that these CRCs detect every error pattern in the guaranteed range (minimum distance of the CRC-24 code, burst/2-bit detection of CRC-32) - coding-theory facts about the polynomials that none of the solvers decides; hash/crc32 is assumed to compute the IEEE CRC-32.",
+   technique="contract-based deductive verification: postconditions tying acceptance to checksum equality over a prophecy model of the input stream",
+   design="DESIGN.md §4 C07"),
 }
 
 not_applicable = {
